@@ -201,9 +201,15 @@ fn run(ctx: &mut Ctx) {
             _ => (r_helix, 0.0, 0.02),
         };
         let p = [x0, y0, z0, r_helix, phi0, h];
-        let dist = *rng.pick(&[0.0, 0.11, 0.15, r_helix, 0.19, 1e-300, 1e-17]);
+        let dist = *rng.pick(&[0.0, 0.11, 0.15, r_helix, 0.19, 1e-300, 1e-17, 1e-12, 1e-9, 3e-9, 1e-8, 1e-7, 5e-7, 1e-6, 2e-6, 1e-4]);
         let (x, y, z, what) = match i % 6 {
-            0 => (x0, y0, z0 + rng.range(-1.2, 1.2), "point exactly on the helix axis"),
+            0 if rng.bool() => (x0, y0, z0 + rng.range(-1.2, 1.2), "point exactly on the helix axis"),
+            0 => {
+                // next to the axis: `dist` away from it in a random direction, z within half a pitch of z0 or anywhere
+                let a = rng.range(-PI, PI);
+                let dz = if rng.bool() { h * rng.range(-0.5, 0.5) } else { rng.range(-1.0, 1.0) };
+                (x0 + dist * a.cos(), y0 + dist * a.sin(), z0 + dz, "point next to the helix axis")
+            }
             1 => (x0 - dist * phi0.cos(), y0 - dist * phi0.sin(), z0, "point opposite the t = 0 point, in the plane z = z0"),
             2 => (x0 + dist * phi0.cos(), y0 + dist * phi0.sin(), z0, "point on the t = 0 ray, in the plane z = z0"),
             3 => {
